@@ -160,8 +160,8 @@ Section S.
     destruct (m_skip rt || has_dyn MSkip (tid rt) dyn || memN (tid rt) desel); [reflexivity|].
     destruct (existsb (fun b => b) (m_skipif rt)); [reflexivity|].
     destruct (has_dyn MAncFailed (tid rt) dyn); [reflexivity|].
-    destruct (m_persist rt && all_exist Ec w rt && any_changed Ec w rt); [reflexivity|].
     destruct (has_dyn MWould (tid rt) dyn); [reflexivity|].
+    destruct (m_persist rt && all_exist Ec w rt && any_changed Ec w rt); [reflexivity|].
     rewrite orb_false_r, andb_true_r.
     destruct (if force c then inr true else check_loop w rt (neighbours Ec rt) _) as [x|[|]]; try reflexivity.
     destruct (dry_run c); [reflexivity|].
